@@ -357,12 +357,38 @@ def fstr(x):
 # ----------------------------------------------------------------------------------------------
 # property clauses on the real code (search)
 # ----------------------------------------------------------------------------------------------
+def dyadic(fm: F, man, exp):
+    """Exact value man*2^exp as a Fraction, or 'huge' (>= 2^(emax+1)) / 'minuscule' (< 2^(emin-2)) without
+    materialising astronomically large powers."""
+    if man == 0:
+        return Fraction(0)
+    top = exp + man.bit_length()  # 2^(top-1) <= x < 2^top
+    if top - 1 >= fm.emax + 1:
+        return "huge"
+    if top <= fm.emin - 2:
+        return "minuscule"
+    return Fraction(man) * Fraction(2) ** exp
+
+
+def oracle_bits(fm: F, man, exp):
+    x = dyadic(fm, man, exp)
+    if x == "huge":
+        return fm.infbits, "inf"
+    if x == "minuscule":
+        return 0, "zero"
+    return oracle_rne(fm, x)
+
+
 def expected_conv(fm: F, sign, man, exp, flush):
     """What the property demands of mpf2float for the exact value; None = no demand (subnormal result)."""
-    x = Fraction(man) * Fraction(2) ** exp
+    x = dyadic(fm, man, exp)
     s = fm.signbit if sign else 0
     if x == 0:
         return 0, "zero"  # mpmath has no negative zero
+    if x == "huge":
+        return s + fm.infbits, "overflow"
+    if x == "minuscule":
+        return s, "tiny"
     bits, cls = oracle_rne(fm, x)
     if x >= fm.overflow_thr:
         assert cls == "inf"
@@ -387,27 +413,31 @@ def check_m2f_clause(ctx, real, fm, flagstr, sign, man, exp, got, corr_item=None
     flush = bool(real.flag(flagstr))
     want, cls = expected_conv(fm, sign, man, exp, flush)
     ctx.count("search:m2f:" + cls)
+    rp = dict(kind="m2f", fmt=fm.name, flag=flagstr, sign=sign, man=str(man), exp=str(exp), got=got, want=want, clause=cls)
     if want is None:
-        # subnormal result: no demand from the property; record how often RNE is nevertheless met
-        if got.startswith("bits "):
-            x = Fraction(man) * Fraction(2) ** exp
-            b, _ = oracle_rne(fm, x)
-            ok = int(got[5:]) == (fm.signbit if sign else 0) + b
-            ctx.count("subnormal-result:" + ("equals-RNE" if ok else "differs-from-RNE(permitted)"))
-            if not got.startswith("bits "):
-                pass
+        # subnormal (or rounds-to-zero above half the smallest subnormal) result: no demand from the property
+        # beyond returning a float; record how often RNE is nevertheless met
+        if not got.startswith("bits "):
+            ctx.violation("mpf2float:raises-on-finite-input", f"mpf2float raised {got} on a finite value", rp, broken_item=corr_item)
             return cls
-    if want is None and not got.startswith("bits "):
-        ctx.violation("mpf2float:raises-on-finite-input", f"mpf2float raised {got} on a finite value",
-                      dict(kind="m2f", fmt=fm.name, flag=flagstr, sign=sign, man=str(man), exp=str(exp), got=got), broken_item=corr_item)
+        b, _ = oracle_bits(fm, man, exp)
+        gb = int(got[5:])
+        ok = gb == (fm.signbit if sign else 0) + b
+        ctx.count("subnormal-result:" + ("equals-RNE" if ok else "differs-from-RNE(permitted)"))
+        # what does hold there (two-step rounding): sign kept, result is one of the two neighbours of x
+        x = dyadic(fm, man, exp)
+        gm = gb & (fm.signbit - 1)
+        faithful = (gb & fm.signbit) == (fm.signbit if sign else 0) and gm <= fm.minnormalbits and abs(gm * fm.min_sub - x) < fm.min_sub
+        if not faithful:
+            ctx.violation("mpf2float:subnormal-result-not-a-neighbour", f"{fm.name}: mpf2float of (-1)^{sign}*{man}*2^{exp} gives {got}: not adjacent to the exact value",
+                          rp, broken_item=corr_item)
         return cls
-    if want is not None and got != f"bits {want}":
+    if got != f"bits {want}":
         sig = {"normal": "mpf2float:normal-result-not-nearest-even", "overflow": "mpf2float:overflow-threshold",
                "tiny": "mpf2float:tiny-not-signed-zero", "flush": "mpf2float:flush-below-min-normal-not-signed-zero",
                "zero": "mpf2float:zero"}[cls]
         ctx.violation(sig, f"{fm.name}: mpf2float of (-1)^{sign}*{man}*2^{exp} (flush={flagstr}) gives {got}, property demands bits {want} [{cls}]",
-                      dict(kind="m2f", fmt=fm.name, flag=flagstr, sign=sign, man=str(man), exp=str(exp), got=got, want=want, clause=cls),
-                      broken_item=corr_item)
+                      rp, broken_item=corr_item)
     return cls
 
 
@@ -424,42 +454,38 @@ def float_value(fm: F, b):
     return s, (m + (1 << (fm.p - 1))) * Fraction(2) ** (e - 1 + fm.emin)
 
 
-def expected_call(fm: F, kw, fn, args_bits):
-    """Property for the backend call: correctly rounded exact result, subnormals preserved unless
-    flushing was explicitly requested (requested = kw is truthy and is not UNSPECIFIED/absent).
-    Returns (bits or None, class)."""
+def exact_call_value(fm: F, fn, args_bits):
     vals = [float_value(fm, b) for b in args_bits]
     if any(v is None for v in vals):
-        return None, "special"
+        return None
     sv = [(-v if s else v) for s, v in vals]
-    if fn == "id":
-        r = sv[0]
-        rs = vals[0][0]
-    elif fn == "neg":
-        r = -sv[0]
-        rs = 1 - vals[0][0]
-    elif fn == "mul":
-        r = sv[0] * sv[1]
-        rs = vals[0][0] ^ vals[1][0]
-    elif fn == "add":
-        r = sv[0] + sv[1]
-        rs = 1 if r < 0 else 0
-    elif fn == "fma":
-        r = sv[0] * sv[1] + sv[2]
-        rs = 1 if r < 0 else 0
-    else:
-        raise ValueError(fn)
+    return dict(id=lambda: sv[0], neg=lambda: -sv[0], mul=lambda: sv[0] * sv[1], add=lambda: sv[0] + sv[1],
+                fma=lambda: sv[0] * sv[1] + sv[2])[fn]()
+
+
+def expected_call(fm: F, kw, fn, args_bits):
+    """Property for the backend call: correctly rounded exact result, subnormals preserved unless
+    flushing was explicitly requested (requested = kw truthy and not UNSPECIFIED/absent).
+    Returns (bits, class, demand) with demand in {"exact", "neighbour"}: results in the subnormal range that
+    are not representable are only required to be adjacent to the exact value (two-step rounding)."""
+    r = exact_call_value(fm, fn, args_bits)
+    if r is None:
+        return None, "special", None
     if r == 0:
-        return 0, "zero"  # one zero in mpmath: +0
-    requested = kw in ("T",) or (kw.startswith("I") and int(kw[1:]) != 0)
+        return 0, "zero", "exact"  # one zero in mpmath: +0
+    requested = kw == "T" or (kw.startswith("I") and int(kw[1:]) != 0)
     bits, cls = oracle_rne(fm, abs(r))
     s = fm.signbit if r < 0 else 0
-    del rs
-    if requested:
-        if abs(r) < fm.min_normal * (1 - Fraction(1, 2 ** (fm.p + 1))):
-            return s, "flushed"
-        return s + bits, cls
-    return s + bits, cls
+    if requested and abs(r) < fm.min_normal * (1 - Fraction(1, 2 ** (fm.p + 1))):
+        return s, "flushed", "exact"
+    if cls in ("normal", "inf"):
+        return s + bits, cls, "exact"
+    representable = bits * fm.min_sub == abs(r)
+    if representable:
+        return s + bits, cls + "-representable", "exact"
+    if abs(r) < fm.min_sub / 2:
+        return s, "tiny", "exact"
+    return s + bits, cls + "-inexact", "neighbour"
 
 
 # ----------------------------------------------------------------------------------------------
@@ -487,7 +513,7 @@ def run(ctx):
         man, exp, _t = gen_triple(rng, fm, extra=rng.randint(0, 53 - fm.p))
         if exp < -1074 or exp + man.bit_length() > 1023 or man.bit_length() > 53:
             continue
-        d = float(man) * 2.0**exp if exp > -1000 else float(Fraction(man) * Fraction(2) ** exp)
+        d = float(Fraction(man) * Fraction(2) ** exp)
         if Fraction(d) != Fraction(man) * Fraction(2) ** exp:
             continue
         with np.errstate(all="ignore"):
@@ -558,7 +584,7 @@ def run(ctx):
         fmt = rng.choice(list(FMTS))
         fm = fms[fmt]
         b = rng.choice([0, 1, fm.minnormalbits, fm.minnormalbits - 1, fm.infbits - 1, fm.infbits, rng.randrange(fm.infbits), rng.randrange(fm.infbits)])
-        if rng.random() < 0.4:
+        if rng.random() < 0.4 and b < fm.infbits - 1:
             b |= 1  # odd significand: ties when shifted into the subnormal range
         sv = float_value(fm, b)
         if sv is None or sv[1] == 0:
@@ -578,7 +604,9 @@ def run(ctx):
         fmt = rng.choice(list(FMTS))
         fm = fms[fmt]
         man, exp, tags = gen_triple(rng, fm)
-        b, cls = oracle_rne(fm, Fraction(man) * Fraction(2) ** exp)
+        if abs(exp) > 3 * 10**6:
+            continue  # the reference rounding is not evaluated at astronomically small/large quanta
+        b, cls = oracle_bits(fm, man, exp)
         add(f"round {fmt} {man} {exp}", str(b), dict(kind="round"))
         ctx.count("round:" + cls)
 
@@ -720,7 +748,9 @@ def run(ctx):
                     c2 = "aimed"
             args = [b1, b2]
             cl = (c1, c2)
-        mn, md, ex = rng.choice([(0, 1, 0), (0, 1, 0), (1, 1, 0), (2, 1, 0), (0, 1, 10), (1, 2, 0), (0, 1, 300), (0, 1, -4)])
+        # extra precision >= 0 only: with a working precision below p, float2mpf itself rounds the INPUT
+        # (ctx.ldexp(mantissa, prec) at the reduced precision) — outside the property's domain, see notes/C15.md
+        mn, md, ex = rng.choice([(0, 1, 0), (0, 1, 0), (1, 1, 0), (2, 1, 0), (0, 1, 10), (1, 2, 0), (0, 1, 300), (1, 3, 1)])
         call_cases.append((fmt, kw, mn, md, ex, fn, args, rng.random() < 0.3, cl, None))
 
     for (fmt, kw, mn, md, ex, fn, args, arr, cl, expect) in call_cases:
@@ -823,47 +853,52 @@ def run(ctx):
 
 def check_call_clause(ctx, fm, m, im, item):
     """The backend clause of the property on the real call result."""
-    want, cls = expected_call(fm, m["kw"], m["fn"], m["args"])
+    want, cls, demand = expected_call(fm, m["kw"], m["fn"], m["args"])
     ctx.count("search:call:" + cls)
     if want is None:
         return
     # exactness precondition: the function value must be exact at the working precision, otherwise the
-    # mpmath evaluation itself rounds first (inherent double rounding, not a conversion defect)
-    wp = max(1, fm.p + int(Fraction(fm.p * m["mn"], m["md"])) + m["ex"]) if m["mn"] >= 0 or True else fm.p
-    vals = [float_value(fm, b) for b in m["args"]]
-    sv = [(-v if s else v) for s, v in vals]
-    exact = dict(id=lambda: sv[0], neg=lambda: -sv[0], mul=lambda: sv[0] * sv[1], add=lambda: sv[0] + sv[1],
-                 fma=lambda: sv[0] * sv[1] + sv[2])[m["fn"]]()
-    if exact != 0:
-        n = abs(exact).numerator
-        bits_needed = (n >> ((n & -n).bit_length() - 1)).bit_length()
+    # mpmath evaluation itself rounds first (inherent double rounding of any finite-precision oracle)
+    wp = max(1, fm.p + int(Fraction(fm.p * m["mn"], m["md"])) + m["ex"])
+    exact = exact_call_value(fm, m["fn"], m["args"])
+
+    def oddbits(q):
+        n = abs(q).numerator
+        return (n >> ((n & -n).bit_length() - 1)).bit_length() if n else 0
+
+    if m["fn"] != "id":
+        need = oddbits(exact)
         if m["fn"] == "fma":
-            # the product is rounded first unless it fits
-            pr = abs(sv[0] * sv[1]).numerator
-            bits_needed = max(bits_needed, (pr >> ((pr & -pr).bit_length() - 1)).bit_length()) if pr else bits_needed
-        if m["fn"] != "id" and bits_needed > wp:
+            vals = [float_value(fm, b) for b in m["args"]]
+            need = max(need, oddbits(vals[0][1] * vals[1][1]))  # the product is rounded first unless it fits
+        if need > wp:
             ctx.count("search:call:skipped(not exact at working precision)")
             return
-    if im == f"bits {want}":
-        return
     kw = m["kw"]
     got_bits = int(im[5:]) if im.startswith("bits ") else None
-    sub_in = any(0 < (b & (fm.signbit - 1)) < fm.minnormalbits for b in m["args"])
-    sub_out = cls == "subnormal" or cls == "flushed" or (got_bits is not None and 0 < (want & (fm.signbit - 1)) < fm.minnormalbits)
-    zero_got = got_bits is not None and (got_bits & (fm.signbit - 1)) == 0
     replay = dict(kind="call", fmt=fm.name, kw=kw, mn=m["mn"], md=m["md"], ex=m["ex"], fn=m["fn"], args=[str(b) for b in m["args"]],
                   got=im, want=want, clause=cls)
-    if kw in ("A", "U") and cls == "subnormal" and zero_got:
+    if im == f"bits {want}":
+        return
+    zero_got = got_bits is not None and (got_bits & (fm.signbit - 1)) == 0
+    sign_ok = got_bits is not None and (got_bits & fm.signbit) == (want & fm.signbit)
+    sub_in = any(0 < (b & (fm.signbit - 1)) < fm.minnormalbits for b in m["args"])
+    if kw in ("A", "U") and cls.startswith("subnormal") and zero_got and sign_ok and (demand == "exact" or abs(exact) >= fm.min_sub):
         ctx.violation(SIG_UNSPEC, f"{fm.name}: {m['fn']} through vectorize_with_mpmath with flush_subnormals unspecified maps a subnormal result to zero: {replay}",
                       replay, broken_item=item)
-    elif kw in ("T", "I1", "I2") and cls == "flushed" and got_bits is not None and not zero_got:
+        return
+    if kw != "A" and kw != "U" and cls == "flushed" and got_bits is not None and not zero_got and sign_ok:
         ctx.violation(SIG_TRUE, f"{fm.name}: {m['fn']} through vectorize_with_mpmath(flush_subnormals={kw}) does not flush a subnormal result: {replay}",
                       replay, broken_item=item)
-    else:
-        sig = f"backend-call:{m['fn']}:kw={kw}:{cls}-result-wrong" + (":subnormal-input" if sub_in else "")
-        _ = sub_out
-        ctx.violation(sig, f"{fm.name}: {m['fn']} through vectorize_with_mpmath (flush kw {kw}) returns {im}, property demands bits {want} [{cls}]",
-                      replay, broken_item=item)
+        return
+    if demand == "neighbour" and got_bits is not None and sign_ok:
+        gm = got_bits & (fm.signbit - 1)
+        if gm <= fm.minnormalbits and abs(gm * fm.min_sub - abs(exact)) < fm.min_sub:
+            ctx.count("call:subnormal-inexact-result:differs-from-RNE(permitted)")
+            return
+    sig = f"backend-call:{m['fn']}:kw={kw}:{cls}-result-wrong" + (":subnormal-input" if sub_in else "")
+    ctx.violation(sig, f"{fm.name}: {m['fn']} through vectorize_with_mpmath (flush kw {kw}) returns {im}, property demands bits {want} [{cls}]",
+                  replay, broken_item=item)
 
 
 def replay(ctx, obj):
@@ -883,10 +918,17 @@ def replay(ctx, obj):
     if rp["kind"] == "call":
         args = [int(b) for b in rp["args"]]
         got, seen = real.call(rp["fmt"], rp["kw"], rp["mn"], rp["md"], rp["ex"], rp["fn"], args)
-        want, cls = expected_call(fm, rp["kw"], rp["fn"], args)
+        want, cls, demand = expected_call(fm, rp["kw"], rp["fn"], args)
         print(f"vectorize_with_mpmath({rp['fn']}, flush kw={rp['kw']}, mult={rp['mn']}/{rp['md']}, extra={rp['ex']}) on bits {args} "
-              f"[working precision {seen[-1] if seen else '?'}] -> {got}; property demands bits {want} [{cls}]")
-        return 0 if want is None or got == f"bits {want}" else 1
+              f"[working precision {seen[-1] if seen else '?'}] -> {got}; property demands bits {want} [{cls}, {demand}]")
+        if want is None or got == f"bits {want}":
+            return 0
+        if demand == "neighbour" and got.startswith("bits "):
+            gb = int(got[5:])
+            gm = gb & (fm.signbit - 1)
+            if (gb & fm.signbit) == (want & fm.signbit) and abs(gm * fm.min_sub - abs(exact_call_value(fm, rp["fn"], args))) < fm.min_sub:
+                return 0
+        return 1
     print("unknown replay kind", rp["kind"])
     return 1
 
